@@ -300,7 +300,7 @@ func (w *DispatchWorld) curDelivery() *delivery {
 func NewDispatchWorld(spec *SysSpec, offset int64, seed int64, arm func(string) bool, simDisk ...bool) (*DispatchWorld, error) {
 	w := &DispatchWorld{byID: map[string]*dmsg{}, byLease: map[string]*dmsg{}, cur: map[*Task]*delivery{}, inDeliver: map[string]*Task{}, taskItems: map[*Task][]queue.Envelope{}, expect: map[string]*settlement{}, leaseUntil: map[string]time.Time{}, stalled: map[*Task]bool{}, faulted: map[string]map[string]int{}, lostRecs: map[string]int{}}
 	w.Model = NewModel(sysQConfig(spec))
-	sw, err := NewSysWorld(spec, offset, SysOptions{Seed: seed, ArmPoints: arm, SimDisk: len(simDisk) > 0 && simDisk[0], OnStore: func(ss *SimStore) {
+	sw, err := NewSysWorld(spec, offset, SysOptions{Seed: seed, ArmPoints: arm, StartPush: true, SimDisk: len(simDisk) > 0 && simDisk[0], OnStore: func(ss *SimStore) {
 		ss.OnEnqueue = func(envs []queue.Envelope, batch bool, n int, err error) {
 			if w.diskDead() {
 				return
@@ -756,7 +756,7 @@ func (w *DispatchWorld) onLease(method string, ids []string, d time.Duration, re
 		switch kind {
 		case "retry":
 			if d < ex.lo || d > ex.hi {
-				w.add("C06.backoff", "C06", loc, "retry of %s after attempt %d scheduled with delay %s, contract says [%s, %s]", dm.token, ex.attempt, d, ex.lo, ex.hi)
+				w.add("C06.backoff", "C06,C05", loc, "retry of %s after attempt %d scheduled with delay %s, contract says [%s, %s]", dm.token, ex.attempt, d, ex.lo, ex.hi)
 			}
 			// one batch call per distinct delay is issued in map order by the
 			// product: the calls touch disjoint leases, so the log sorts them
